@@ -212,14 +212,12 @@ def restore (p : Persisted) : Agg :=
 
 /-- What the aggregation needs from the URL tree. -/
 structure Normaliser (τ : Type) where
-  /-- tree after `NormalizeTree` inserted the batch's URLs -/
+  /-- tree after `NormalizeTree` inserted the batch's URLs (a URL the tree refuses is skipped) -/
   learn : τ → List String → τ
   /-- result of `NormalizeURL` -/
   norm : τ → String → String
   /-- convergence indication returned by `NormalizeTree` -/
   conv : τ → List String → Bool
-  /-- `NormalizeTree` returned an error (the whole batch is then dropped by `Run`) -/
-  fails : τ → List String → Bool
 
 /-- `filterOutInternalRecords`. -/
 def external (batch : List Rec) : List Rec := batch.filter fun r => !r.internal
@@ -230,13 +228,8 @@ def step {τ : Type} (N : Normaliser τ) (T : τ) (A : Agg) (batch : List Rec) :
   let rs := external batch
   let urls := rs.map (·.url)
   let T' := N.learn T urls
-  if N.fails T urls then (T', A) else
   let A1 := if N.conv T urls then A.rekey (N.norm T') else A
   (T', A1.combine (extractAgg (N.norm T') rs))
-
-/-- `Run` returned an error for this batch (nothing is written, the aggregation is kept). -/
-def stepFails {τ : Type} (N : Normaliser τ) (T : τ) (batch : List Rec) : Bool :=
-  !batch.isEmpty && N.fails T ((external batch).map (·.url))
 
 /-- Plugin state: the learnt tree, the in-memory aggregation and the state file.  The file is rewritten by
     every successful non-empty `Run` (`UpdateAggregation`) and only then. -/
@@ -250,7 +243,6 @@ def St.init {τ : Type} (T0 : τ) : St τ := ⟨T0, {}, persist {}⟩
 
 def stepS {τ : Type} (N : Normaliser τ) (s : St τ) (batch : List Rec) : St τ :=
   if batch.isEmpty then s
-  else if stepFails N s.tree batch then { s with tree := (step N s.tree s.agg batch).1 }
   else
     let r := step N s.tree s.agg batch
     { tree := r.1, agg := r.2, file := persist r.2 }
